@@ -7,6 +7,7 @@ import "verif/mon"
 func main() {
 	mon.Main(map[string]func(*mon.Run){
 		"C02": checkC02,
+		"C03": checkC03,
 		"C22": checkC22,
 	})
 }
